@@ -10,6 +10,7 @@
 (*                                                                         *)
 (*   C05_..     property lane: the STATEMENT of C05 evaluated on observed    *)
 (*              states (exact functional comparison at PREC = 10^18)        *)
+(*   C11_Halt   property lane of C11: BeginBlocker panicked on the real app   *)
 (*   STRICT_..  strict lane: observed post-state / result differ from       *)
 (*              VApply(pre, event, args) of spec/VotingPower.tla (drift)    *)
 (***************************************************************************)
@@ -126,7 +127,7 @@ StrictTags(prep, postp, pre, post, ev, a, ok, panic) ==
   T(r.V = post, "STRICT_state_" \o ev) \cup
   \* results and panics of ledger events are the ledger family's business (C01-C04, C09, C11)
   T(ev \in LedgerEvents \/ (r.err = "") = ok, "STRICT_result_" \o ev) \cup
-  T(ev \in LedgerEvents \/ ~panic, "STRICT_panic_" \o ev) \cup
+  T(ev \in LedgerEvents \/ (r.err = "PANIC") = panic, "STRICT_panic_" \o ev) \cup
   T(ev \in LedgerEvents \/ postp = prep, "STRICT_pools_" \o ev)
 
 (***************************************************************************)
@@ -152,6 +153,8 @@ Next ==
            isEp  == line.ev = "EpochEnd" /\ ~line.panic   \* a panic in BeginBlock halts the chain (C11): no epoch-end state
            who   == IF isEp THEN EpochEndWho(postp, V, post) ELSE {}
            tags  == T(VNonNegative(post), "C05_Negative") \cup
+                    \* C11: a block phase (here BeginBlocker at an epoch end) panicked on the real app = chain halt
+                    T(~(line.ev = "EpochEnd" /\ line.panic), "C11_Halt") \cup
                     (IF isEp THEN EpochEndTags(line.st, postp, V, post, M) ELSE {}) \cup
                     StrictTags(P, postp, V, post, line.ev, line.a, line.ok, line.panic)
        IN /\ P' = postp /\ V' = post
